@@ -287,39 +287,8 @@ def r16_3(cx):
 
 # ------------------------------------------------------------------------------------------------- R20.1 / R20.2 / R20.3 / R20.5
 def r20_1(cx):
-    b = cx.body("nfa::noncontiguous::Compiler::<'a>::build_trie")
-    pl = b.locals_named('pid')
-    d = expand_vars(b, b.def_term(pl[0]), keep=('i',)) if pl else None
-    ok = False
-    if d is not None:
-        x = peel_all(d)
-        if is_call(x, r'Result::map_err$'):
-            x = x[2][0]
-        ok = is_call(x, r'PatternID::new$') and is_var(x[2][0], 'i')
-    il = b.locals_named('i')
-    idf = b.def_term(il[0]) if il else None
-    oki = idf is not None and '.0.0' in tstr(idf) and 'Iterator::next' in tstr(idf) and 'enumerate' in tstr(expand_vars(b, idf))
-    cx.report('R20.1', b, 'pid', ok and oki, 'pid = PatternID::new(i) with i the enumerate() index of the pattern' if ok and oki else 'pattern ids are not the enumeration index')
-    am = [b.call_term(bi, t) for bi, t in b.calls(r'NFA::add_match$')]
-    ok = len(am) == 1 and is_var(am[0][2][2], 'pid') and is_var(am[0][2][1], 'prev')
-    cx.report('R20.1', b, 'add_match', ok, 'add_match(prev, pid) records that pid at the end of the pattern\'s path' if ok else 'add_match is called as %s' % [tstr(a, 100) for a in am])
-    pushes = [(bi, b.call_term(bi, t)) for bi, t in b.calls(r'Vec.*::push$') if 'pattern_lens' in tstr(b.call_term(bi, t))]
-    okp = len(pushes) == 1 and is_var(pushes[0][1][2][1], 'patlen')
-    pld = expand_vars(b, b.def_term(b.locals_named('patlen')[0]), keep=('pat',)) if b.locals_named('patlen') else None
-    okl = pld is not None and 'SmallIndex::new(core::slice::len(pat))' in tstr(pld, 400).replace('util::primitives::', '')
-    cx.report('R20.1', b, 'pattern_lens', okp and okl, 'pattern_lens.push(len(pat)) once per pattern' if okp and okl else 'pattern length is not recorded as pattern_lens.push(pat.len())')
-    # min / max updates before any pruning exit, with pat.len()
-    for fld, fn in (('min_pattern_len', 'min'), ('max_pattern_len', 'max')):
-        st = [(bi, v) for bi, si, tt, v, s in b.field_stores() if tt[0] == 'f' and tt[2] == fld]
-        ok = len(st) == 1 and is_call(st[0][1], r'core::cmp::%s$' % fn) and {tstr(x) for x in st[0][1][2]} == {'self.nfa.' + fld, 'core::slice::len(pat)'}
-        loops = b.loops()
-        outer = max(loops, key=lambda h: len(loops[h]))
-        back = [s for s in b.pred(outer) if s in loops[outer]]
-        if ok:
-            # every path from the pattern payload to a back edge passes the update
-            r = b.reach(outer, cut_blocks=[st[0][0]])
-            ok = not any(s in r - {st[0][0]} for s in back)
-        cx.report('R20.1', b, fld, ok, '%s = %s(%s, pat.len()) for every pattern' % (fld, fn, fld) if ok else '%s is not updated with pat.len() for every pattern' % fld)
+    from rules.trie import r20_1_trie
+    r20_1_trie(cx)
     # assertion i == pattern_lens.len() keeps ids aligned with the length table
     n = cx.body('nfa::noncontiguous::NFA::add_match')
     pid_st = [v for bi, si, tt, v, s in n.field_stores() if tt[0] == 'f' and tt[2] == 'pid'] + \
